@@ -1719,6 +1719,26 @@ def i_nondet_bytes_len(e, st, a, i):
     return SliceV(obj, 0, n, n, False)
 
 
+def i_rand_intn(e, st, a, i):
+    """math/rand.Intn(n): a fresh symbolic r with 0 <= r < n (panics for n <= 0 like the original)"""
+    n = a[0]
+    cnt = e.nondet_count.get('rand.Intn', 0)
+    e.nondet_count['rand.Intn'] = cnt + 1
+    r = z3.BitVec('rand.Intn#%d' % cnt, 64)
+    e.inputs['rand.Intn#%d' % cnt] = r
+    e.signed_inputs.add('rand.Intn')
+    if not is_sym(n):
+        if n <= 0:
+            e.panic(st, True, 'rand-intn')
+            return 0
+        if n == 1:
+            return 0
+    else:
+        e.panic(st, sb(n <= 0), 'rand-intn')
+    st.pc = e.name(sb(And(st.pc, r >= 0, r < to_bv(n, 64))))
+    return r
+
+
 def i_havoc_state(e, st, a, i):
     """verifrt.HavocState(ptr, name): fresh symbolic leaves for every scalar of the pointee"""
     iv, name = a[0], a[1].decode()
@@ -2141,6 +2161,7 @@ def i_re_matchstring(e, st, a, i):
 
 INTRINSICS = {
     'sort.Slice': i_sort_slice,
+    'math/rand.Intn': i_rand_intn,
     '(*regexp.Regexp).FindAllStringSubmatch': i_re_findall,
     '(*regexp.Regexp).FindString': i_re_findstring,
     'regexp.MustCompile': i_re_mustcompile,
